@@ -747,9 +747,27 @@ def r132(ctx, rep, f, ev, cg, reach, O):
     # per-lane bunch counters
     cb_ = LA + "check_bunch_counters"
     if cb_ in f.fns:
-        out = [o for o in ev.collect_ifs(cb_, [Sym("self")]) if "cond" in o]
-        first = out[0] if out else None
-        ok = first is not None and re.fullmatch(r"Gt\(sym\(call:alloc::vec::Vec::<T, A>::len\(sym\(call:itertools::Itertools::collect_vec\(sym\(call:itertools::Itertools::unique_by\(sym\(call:core::slice::<impl \[T\]>::iter\(.*self\.chip_data.*\)\)\)\),0x1\)", ckey(first["cond"])) is not None
+        # decided per number of distinct bunch counters among the lane's chips (0..3 substituted for the length of the
+        # unique_by list): Ok up to one, Err from two on — however the comparison and the branches are written
+        verdicts, lists = {}, set()
+        for n_ in (0, 1, 2, 3):
+            def hk(n, a, n_=n_):
+                k_ = vkey(a[0])
+                if "unique_by" in k_:
+                    lists.add(k_)
+                    return Bits.const(n_, 64)
+                return None
+            ev.call_hooks = [(lambda fn_, r_: (r_ or fn_).endswith("::len"), hk)]
+            try:
+                r_ = vkey(ev.call_fn(cb_, [Sym("self")]))
+                verdicts[n_] = "Err" if r_.startswith("Result::Err(") else ("Ok" if r_.startswith("Result::Ok(") else r_[:60])
+            except Unsupported as e:
+                verdicts[n_] = "unevaluable: %s" % e
+            finally:
+                ev.call_hooks = []
+        first = None
+        ok = verdicts == {0: "Ok", 1: "Ok", 2: "Err", 3: "Err"} and len(lists) == 1 and \
+            re.fullmatch(r"sym\(call:itertools::Itertools::collect_vec\(sym\(call:itertools::Itertools::unique_by\(sym\(call:core::slice::<impl \[T\]>::iter\(.*self\.chip_data.*\)\)\)", next(iter(lists))) is not None
         clo = cb_ + "::{closure#0}"
         try:
             kv = vkey(ev.call_closure(("closure", clo, {}), [Sym("cd")], 0))
@@ -757,7 +775,7 @@ def r132(ctx, rep, f, ev, cg, reach, O):
             kv = "unevaluable %r" % (e,)
         ok = ok and kv == "sym(cd.bunch_counter)"
         rep.check(ok, "R13.2", "R13.2|bc|per-lane", "lane error iff more than one distinct chip bunch counter (unique_by bunch_counter)", WL,
-                  "check_bunch_counters condition %s keyed by %s" % (ckey(first["cond"])[:200] if first else None, kv))
+                  "check_bunch_counters: verdict per number of distinct values %s over %s keyed by %s" % (verdicts, [l_[:160] for l_ in lists], kv))
     dl = LA + "do_lane_alpide_checks"
     tb = ev.tb(dl)
     if tb is not None:
